@@ -2,16 +2,16 @@
 PROPERTY = "C52"
 META = {
     "category": "proof",
-    "technique": "contract-based deductive verification of Profiler._pretask/_posttask/_finish (records as a union of the 3-field and 5-field tuple shapes, instance invariant, monotone ghost clock) and of a ghost client driving them in scheduler order, z3; bounded stand-in: run-time postconditions on the real Profiler and Cache callbacks over all small graphs, sync and threaded schedulers, failing tasks, nested / registered profilers, cache reuse under eviction (cachey replaced by a stated stand-in)",
-    "text": "PROVED for every sequence the callback protocol allows (induction over the calls: each method keeps the instance invariant): _pretask opens exactly one record for its key and leaves the others alone, _posttask completes that record with start <= end, _finish appends exactly one entry per completed record (distinct keys, earlier entries kept, TaskData never gets a short record) and drops the records still in flight; client theorem: pretask a, pretask b, posttask b, pretask c, posttask a, finish gives exactly the entries a and b with start <= end. That each executed task gets one pretask before one posttask call is C05. BOUNDED, not proved: for every task/data graph with <= 3 nodes, every request, with and without a failing task, on the sync and threaded schedulers, with one profiler, two nested profilers and a registered + context profiler: each profiler records exactly one entry per task whose posttask fired, start <= end. Cache: 3 graphs x 4 capacities x 3 rounds reusing the cache x 2 schedulers give the same values with and without the callback.",
+    "technique": "contract-based deductive verification of Cache._start/_posttask/_finish (two-state contracts over a store invariant, ghost function computed(key)) and of Profiler._pretask/_posttask/_finish (records as a union of the 3-field and 5-field tuple shapes, instance invariant, monotone ghost clock) and of a ghost client driving them in scheduler order, z3; bounded stand-in: run-time postconditions on the real Profiler and Cache callbacks over all small graphs, sync and threaded schedulers, failing tasks, nested / registered profilers, cache reuse under eviction (cachey replaced by a stated stand-in)",
+    "text": "Cache callback, PROVED: Cache._start replaces the graph entries of cached keys by data nodes holding exactly the cached value and leaves every other entry and the key set alone; Cache._posttask hands the store exactly (key, value) and keeps the store invariant 'every entry is the value computed for its key' under the ASSUMED contract of cachey's put (keeps, refuses or evicts, never invents a value); Cache._finish leaves the store alone. Profiler: PROVED for every sequence the callback protocol allows (induction over the calls: each method keeps the instance invariant): _pretask opens exactly one record for its key and leaves the others alone, _posttask completes that record with start <= end, _finish appends exactly one entry per completed record (distinct keys, earlier entries kept, TaskData never gets a short record) and drops the records still in flight; client theorem: pretask a, pretask b, posttask b, pretask c, posttask a, finish gives exactly the entries a and b with start <= end. That each executed task gets one pretask before one posttask call is C05. BOUNDED, not proved: for every task/data graph with <= 3 nodes, every request, with and without a failing task, on the sync and threaded schedulers, with one profiler, two nested profilers and a registered + context profiler: each profiler records exactly one entry per task whose posttask fired, start <= end. Cache: 3 graphs x 4 capacities x 3 rounds reusing the cache x 2 schedulers give the same values with and without the callback.",
     "note": "Trusted: VC generator, z3. ASSUMED: default_timer never goes backwards; starmap(TaskData, xs) builds one five-field namedtuple per record (modelled as the tuple). __init__/__enter__/clear and the Callback plumbing are not under contract (bounded natively: nested and registered profilers). The Cache clause is NOT proved: bounded natively only. `cachey` is absent from the sandbox: a 40-line stand-in (vf/stubs/cachey.py) is used, so the Cache part checks dask/cache.py against that model only.",
     "design_ref": "DESIGN.md §5.13",
 }
-MODULES = ["contracts.profiler"]
+MODULES = ["contracts.profiler", "contracts.cachecb"]
 LEVEL = "proof"
 EXPLANATION = "Profiler record keeping proved (two-state contracts + instance invariant + client theorem); Cache clause and scheduler integration by bounded run-time contract checks"
-TRUSTED = ["VC generator /verif/vf", "z3", "stand-in for cachey (vf/stubs/cachey.py)", "timeit.default_timer monotone (assumed)", "itertools.starmap model"]
-ASSUMPTIONS = ["bounded graphs"]
+TRUSTED = ["VC generator /verif/vf", "z3", "stand-in for cachey (vf/stubs/cachey.py)", "timeit.default_timer monotone (assumed)", "itertools.starmap model", "ASSUMED contract of cachey.Cache.put (keeps / refuses / evicts, never alters a value)", "cachey.nbytes and sys.getsizeof non-negative, module constant overhead > 0 (assumed)"]
+ASSUMPTIONS = ["bounded graphs", "one value per key: equal keys denote equal computations (C11/C12)"]
 
 
 def native(tier, seed):
@@ -20,8 +20,11 @@ def native(tier, seed):
 
 
 NATIVE_COVERS = {q: ["Profiler"] for q in ("Profiler._pretask", "Profiler._posttask", "Profiler._finish", "client_two_tasks_one_fails_later")}
+NATIVE_COVERS.update({q: ["Cache"] for q in ("Cache._start", "Cache._posttask", "Cache._finish")})
 
 # thorough tier: deliberate edits that must turn an obligation red (applied to a scratch copy, never to /repo)
-MUTATIONS = [('contracts.profiler', 'Profiler._finish', 'dask/diagnostics/profile.py', '        results = {k: v for k, v in self._results.items() if len(v) == 5}', '        results = {k: v for k, v in self._results.items() if len(v) >= 3}'),
+MUTATIONS = [('contracts.cachecb', 'Cache._start', 'dask/cache.py', '            dsk[key] = DataNode(key, self.cache.data[key])', '            dsk[key] = self.cache.data[key]'),
+             ('contracts.cachecb', 'Cache._posttask', 'dask/cache.py', '        self.cache.put(key, value, cost=duration / nb / 1e9, nbytes=nb)', '        self.cache.put(key, duration, cost=duration / nb / 1e9, nbytes=nb)'),
+             ('contracts.profiler', 'Profiler._finish', 'dask/diagnostics/profile.py', '        results = {k: v for k, v in self._results.items() if len(v) == 5}', '        results = {k: v for k, v in self._results.items() if len(v) >= 3}'),
              ('contracts.profiler', 'Profiler._finish', 'dask/diagnostics/profile.py', '        self.results += list(starmap(TaskData, results.values()))', '        self.results = list(starmap(TaskData, results.values()))'),
              ('contracts.profiler', 'Profiler._posttask', 'dask/diagnostics/profile.py', '        end = default_timer()\n        self._results[key] += (end, id)', '        end = default_timer()\n        self._results[key] += (end - 1, id)')]
